@@ -60,4 +60,48 @@ theorem parse_prefixed2 (u : DUnit) (hu : u ≠ .eternity) (iso : List Char) (to
   simp only [parseUnitForm, sizeField, hlex, Option.isNone_some, Bool.false_eq_true, if_false, h4, hbase, pyInt_natDigits]
   cases u <;> first | exact absurd rfl hu | (simp only [hw, Bool.false_eq_true, if_false])
 
+/-! ## a string the ISO expressions accept begins with a digit (so it is not `eternity`) -/
+theorem digitVal_some_isDig (a : Char) (k : Nat) (h : digitVal a = some k) : IsDig a := by
+  unfold digitVal at h
+  split at h
+  · rename_i hr
+    obtain ⟨h0, h9⟩ := hr
+    have h9' : a.toNat ≤ 57 := h9
+    have h0' : 48 ≤ a.toNat := h0
+    have ha : a = Char.ofNat a.toNat := (Char.ofNat_toNat a).symm
+    have hc : a.toNat = 48 ∨ a.toNat = 49 ∨ a.toNat = 50 ∨ a.toNat = 51 ∨ a.toNat = 52 ∨ a.toNat = 53 ∨
+        a.toNat = 54 ∨ a.toNat = 55 ∨ a.toNat = 56 ∨ a.toNat = 57 := by omega
+    rcases hc with e | e | e | e | e | e | e | e | e | e <;> rw [ha, e]
+    · exact ⟨0, by omega, by decide⟩
+    · exact ⟨1, by omega, by decide⟩
+    · exact ⟨2, by omega, by decide⟩
+    · exact ⟨3, by omega, by decide⟩
+    · exact ⟨4, by omega, by decide⟩
+    · exact ⟨5, by omega, by decide⟩
+    · exact ⟨6, by omega, by decide⟩
+    · exact ⟨7, by omega, by decide⟩
+    · exact ⟨8, by omega, by decide⟩
+    · exact ⟨9, by omega, by decide⟩
+  · cases h
+
+theorem lexIso_first_digit (cs : List Char) (t : Tok) (h : lexIso cs = some t) :
+    ∃ c rest, cs = c :: rest ∧ IsDig c := by
+  unfold lexIso at h
+  split at h
+  · rename_i a b c d rest
+    refine ⟨a, _, rfl, ?_⟩
+    cases ha : digitVal a with
+    | some k => exact digitVal_some_isDig a k ha
+    | none =>
+      exfalso
+      have : digitsVal [a, b, c, d] = none := by
+        simp only [digitsVal, List.foldl, ha]
+      rw [this] at h; cases h
+  · cases h
+
+/-- a bare ISO spelling is handed to `parse_period` -/
+theorem parse_plain' (cs : List Char) (tok : Tok) (hlex : lexIso cs = some tok) : parsePeriod cs = parseIsoPeriod cs := by
+  obtain ⟨c, rest, hcs, hc⟩ := lexIso_first_digit cs tok hlex
+  exact parse_plain cs tok c rest hcs hc hlex
+
 end OFCore
